@@ -94,6 +94,7 @@ package p2pke
 //@   ensures ret2 != nil ==> s.hsIndex == old(s.hsIndex) && s.nonce == old(s.nonce) && !ret0 && ret1 == nil
 //@   ensures now > old(s.expiresAt) ==> ret2 != nil
 //@   ensures len(incoming) < 4 ==> ret2 != nil
+//@   ensures [noleak] ghost(decrypted) && !ret0 ==> ret1 == nil
 //@   ensures [step0] old(s.hsIndex) == 0 ==> s.hsIndex == 0 || (s.isInit && s.hsIndex == 2) || (!s.isInit && s.hsIndex == 1)
 //@   ensures [step1] old(s.hsIndex) == 1 ==> s.hsIndex == 1 || s.hsIndex == 3
 //@   ensures [step2] old(s.hsIndex) == 2 ==> s.hsIndex == 2 || s.hsIndex == 4 || s.hsIndex == 8
